@@ -72,6 +72,7 @@ type Contract struct {
 	// Closure contracts: parameters of the form `apply fn(i, j) == expr` give
 	// meaning to function-typed parameters; see spec.go.
 	ReplayReq []string // extra input restrictions for the replay sweep (evaluation cost)
+	MaxAlloc     string // bound (in bytes, an expression over the parameters at entry) on every make([]T, n) of the function
 	SeqExt       bool   // add extensionality of byte sequences (equal cells => equal bytes(...)) to the function's queries
 	InstCounters bool   // instantiate quantified hypotheses at the counters of enclosing loops (and at 0)
 	LogicalDef   bool              // `logical-definitional`: the requires clauses mentioning the logical variables only define them (witnesses always exist)
@@ -379,6 +380,8 @@ func (cs *ContractSet) parseFile(fset *token.FileSet, pkgPath string, f *ast.Fil
 			cur.InstCounters = true
 		case "seq-ext":
 			cur.SeqExt = true
+		case "max-alloc":
+			cur.MaxAlloc = rest
 		case "logical-definitional":
 			cur.LogicalDef = true
 		case "logical":
